@@ -11,7 +11,7 @@ from simkit.kernel import HarnessError
 
 ID = "C16"
 LEVEL = "fault_enumeration"
-RUNS = {"quick": 500, "thorough": 16000}
+RUNS = {"quick": 2500, "thorough": 40000}
 CHUNK = 8
 RULE = ("for each seeded valid stream (reference encoder) one violation of each catalogued class is injected at EVERY "
         "position where it applies (re-encoding one row with the independent codec); the reference decoder must "
